@@ -46,8 +46,11 @@ ASSUMPTIONS = ["'identical result' = same PDU and warning flag / same decoded va
                "the flag cannot be set before `import odxtools` without an import hook (the package imports all of its modules); the worker's hook is "
                "the earliest possible point",
                "cli/browse.py (interactive), cli/snoop.py (needs a CAN bus) are accounted by argument, not executed",
-               "text tables / DTC-DOPs and direct compu-method calls have no counterpart in drv_codec (`(unsupported)` / not forwarded): the ambiguity and "
-               "compu-method families are judged by the direct oracle only (the compu model is compared with the real code under both flags by C07)"]
+               "text tables, LINEAR compu methods and DTC-DOPs inside a DOP are followed by drv_codec in both modes (Model/CodecCompu.lean: every odxraise "
+               "site of linearcompumethod.py / linearsegment.py / texttablecompumethod.py / dtcdop.py with its lenient continuation, e.g. 'first match' for an "
+               "ambiguous table), so the ambiguity families are compared with the model under both flags; direct compu-method calls and the other compu "
+               "categories have no counterpart in drv_codec (not forwarded): judged by the direct oracle only (the compu model is compared with the real "
+               "code under both flags by C07)"]
 
 logging.getLogger("odxtools").setLevel(logging.CRITICAL)
 
